@@ -323,7 +323,10 @@ def check_model_case(rec, backend="numpy", remove_unused=(False, True), workdir=
 def _case_worker(args):
     rec, backend, kw = args
     try:
-        return check_model_case(rec, backend, **kw)
+        st, bad = check_model_case(rec, backend, **kw)
+        for b in bad[:3]:
+            b["rec"] = rec          # lets `./check Cnn --replay <file>` execute the case again
+        return st, bad
     except Exception as ex:  # noqa: BLE001
         import traceback
 
